@@ -261,4 +261,161 @@ example : Spec.Valid [⟨0, 0⟩, ⟨1, 1⟩, ⟨2, 0⟩, ⟨3, 1⟩, ⟨4, 0⟩
 /-- … and the specification does reject an answer that drops a far vertex -/
 example : Spec.Valid [⟨0, 0⟩, ⟨1, 5⟩, ⟨2, 0⟩] [0, 2] [⟨0, 0⟩, ⟨2, 0⟩] 2 0 = false := by decide +kernel
 
+/-- general position is needed in `C13_simple`: a simple line string with three collinear vertices
+whose answer folds back over itself (the chord overlaps the next segment, which is never checked) -/
+example : Spec.Simple [⟨0, 0⟩, ⟨2, 1⟩, ⟨4, 0⟩, ⟨2, 0⟩] = true ∧
+    Spec.GenPos [⟨0, 0⟩, ⟨2, 1⟩, ⟨4, 0⟩, ⟨2, 0⟩] = false ∧
+    simplifyLS [⟨0, 0⟩, ⟨2, 1⟩, ⟨4, 0⟩, ⟨2, 0⟩] 1 = .ok [⟨0, 0⟩, ⟨4, 0⟩, ⟨2, 0⟩] ∧
+    Spec.Simple [⟨0, 0⟩, ⟨4, 0⟩, ⟨2, 0⟩] = false := by decide +kernel
+
+/-- the collinear branch of `findIntersection` is not an overlap test (it divides by a length where
+a squared length is needed): overlapping collinear segments are reported as disjoint -/
+example : findIntersectionCount ⟨⟨0, 0⟩, ⟨10, 0⟩⟩ ⟨⟨5, 0⟩, ⟨7, 0⟩⟩ = 0 ∧
+    Spec.segsMeet ⟨0, 0⟩ ⟨10, 0⟩ ⟨5, 0⟩ ⟨7, 0⟩ = true := by decide +kernel
+
+/-- a zero-length first segment "meets" every segment whatsoever (0/0 = NaN in the source) -/
+example : findIntersectionCount ⟨⟨1, 1⟩, ⟨1, 1⟩⟩ ⟨⟨5, 1⟩, ⟨7, 1⟩⟩ = 2 := by decide +kernel
+
+end GeomV.C13
+
+/-! ## the judge's decision procedure `Spec.embeds` is sound -/
+
+namespace GeomV.C13
+open GeomV GeomV.C13.Spec
+
+theorem scanFrom_mem (inp : Spec.Path) (tol slack : Rat) (pa pb : Spec.P) :
+    ∀ (fuel k0 : Nat) (acc : List Nat) (k : Nat), k ∈ scanFrom inp tol slack pa pb fuel k0 acc →
+      k ∈ acc ∨ (k0 ≤ k ∧ inp[k]? = some pb ∧
+        ∀ k', k0 ≤ k' → k' < k → ∃ p, inp[k']? = some p ∧ within tol slack p pa pb = true) := by
+  intro fuel
+  induction fuel with
+  | zero => intro k0 acc k h; exact Or.inl (by simpa [scanFrom] using h)
+  | succ fuel ih =>
+    intro k0 acc k h
+    unfold scanFrom at h
+    cases hp : inp[k0]? with
+    | none => simp [hp] at h; exact Or.inl h
+    | some p =>
+      simp only [hp] at h
+      have hacc : ∀ k, k ∈ (if p = pb ∧ ¬ acc.contains k0 = true then k0 :: acc else acc) →
+          k ∈ acc ∨ (k = k0 ∧ p = pb) := by
+        intro k hk
+        by_cases hc : p = pb ∧ ¬ acc.contains k0 = true
+        · simp only [hc, if_true] at hk
+          rcases List.mem_cons.mp hk with h | h
+          · exact Or.inr ⟨h, hc.1⟩
+          · exact Or.inl h
+        · simp only [hc, if_false] at hk; exact Or.inl hk
+      have base : ∀ k, k ∈ (if p = pb ∧ ¬ acc.contains k0 = true then k0 :: acc else acc) →
+          k ∈ acc ∨ (k0 ≤ k ∧ inp[k]? = some pb ∧
+            ∀ k', k0 ≤ k' → k' < k → ∃ p, inp[k']? = some p ∧ within tol slack p pa pb = true) := by
+        intro k hk
+        rcases hacc k hk with h | ⟨h1, h2⟩
+        · exact Or.inl h
+        · subst h1; subst h2
+          exact Or.inr ⟨Nat.le_refl _, hp, fun k' a b => by omega⟩
+      by_cases hw : within tol slack p pa pb = true
+      · simp only [hw, if_true] at h
+        rcases ih (k0 + 1) _ k h with h | ⟨h1, h2, h3⟩
+        · exact base k h
+        · refine Or.inr ⟨by omega, h2, fun k' a b => ?_⟩
+          by_cases hk : k' = k0
+          · subst hk; exact ⟨p, hp, hw⟩
+          · exact h3 k' (by omega) b
+      · simp only [hw] at h
+        exact base k h
+
+theorem nextPositions_mem (inp : Spec.Path) (tol slack : Rat) (pa pb : Spec.P) (cur : List Nat) (k : Nat)
+    (h : k ∈ nextPositions inp tol slack pa pb cur) :
+    ∃ a ∈ cur, a < k ∧ inp[k]? = some pb ∧
+      ∀ k', a < k' → k' < k → ∃ p, inp[k']? = some p ∧ within tol slack p pa pb = true := by
+  unfold nextPositions at h
+  have gen : ∀ (cur : List Nat) (acc0 : List Nat),
+      k ∈ cur.foldl (fun acc a => scanFrom inp tol slack pa pb inp.length (a + 1) acc) acc0 →
+      k ∈ acc0 ∨ ∃ a ∈ cur, a < k ∧ inp[k]? = some pb ∧
+        ∀ k', a < k' → k' < k → ∃ p, inp[k']? = some p ∧ within tol slack p pa pb = true := by
+    intro cur
+    induction cur with
+    | nil => intro acc0 h; exact Or.inl (by simpa using h)
+    | cons a cur ih =>
+      intro acc0 h
+      simp only [List.foldl_cons] at h
+      rcases ih _ h with h | ⟨a', ha', r⟩
+      · rcases scanFrom_mem inp tol slack pa pb _ _ _ k h with h | ⟨h1, h2, h3⟩
+        · exact Or.inl h
+        · exact Or.inr ⟨a, by simp, by omega, h2, fun k' x y => h3 k' (by omega) y⟩
+      · exact Or.inr ⟨a', by simp [ha'], r⟩
+  rcases gen cur [] h with h | h
+  · simp at h
+  · exact h
+
+theorem gapsOK_append (inp : Spec.Path) (tol slack : Rat) :
+    ∀ (is : List Nat) (a k : Nat), is.getLast? = some a → gapsOK inp tol slack is = true →
+      a < k → gapOK inp tol slack a k = true → gapsOK inp tol slack (is ++ [k]) = true
+  | [], _, _, h, _, _, _ => by simp at h
+  | [x], a, k, h, _, hak, hg => by
+    simp at h; subst h
+    simp [gapsOK, hak, hg]
+  | x :: y :: rest, a, k, h, hgs, hak, hg => by
+    have hl : (y :: rest).getLast? = some a := by simpa [List.getLast?_cons_cons] using h
+    simp only [gapsOK, Bool.and_eq_true] at hgs
+    have ih := gapsOK_append inp tol slack (y :: rest) a k hl hgs.2 hak hg
+    simp only [List.cons_append, gapsOK, Bool.and_eq_true]
+    exact ⟨hgs.1, by simpa using ih⟩
+
+/-- partial embedding of the consumed part of the answer ending at position `a` -/
+def PE (inp : Spec.Path) (tol slack : Rat) (consumed : Spec.Path) (a : Nat) : Prop :=
+  ∃ is : List Nat, is.head? = some 0 ∧ is.getLast? = some a ∧
+    is.map (inp[·]?) = consumed.map some ∧ gapsOK inp tol slack is = true
+
+theorem embedsFrom_sound (inp : Spec.Path) (tol slack : Rat) :
+    ∀ (rest : Spec.Path) (pa : Spec.P) (cur : List Nat) (consumed : Spec.Path),
+      consumed.getLast? = some pa → (∀ a ∈ cur, PE inp tol slack consumed a) →
+      embedsFrom inp tol slack pa rest cur = true →
+      PE inp tol slack (consumed ++ rest) (inp.length - 1)
+  | [], pa, cur, consumed, _, hcur, h => by
+    simp only [embedsFrom, List.contains_eq_mem, decide_eq_true_eq] at h
+    simpa using hcur _ h
+  | pb :: rest, pa, cur, consumed, hlast, hcur, h => by
+    simp only [embedsFrom, Bool.and_eq_true] at h
+    have hnext : ∀ k ∈ nextPositions inp tol slack pa pb cur, PE inp tol slack (consumed ++ [pb]) k := by
+      intro k hk
+      obtain ⟨a, ha, hak, hkb, hw⟩ := nextPositions_mem inp tol slack pa pb cur k hk
+      obtain ⟨is, i1, i2, i3, i4⟩ := hcur a ha
+      have hpa : inp[a]? = some pa := by
+        have := congrArg List.getLast? i3
+        rw [List.getLast?_map, List.getLast?_map, i2, hlast] at this
+        simpa using this
+      have hg : gapOK inp tol slack a k = true := by
+        unfold gapOK
+        rw [hpa, hkb]
+        simp only [List.all_eq_true]
+        intro p hp
+        obtain ⟨k', k1, k2, k3⟩ := mem_take_drop hp
+        obtain ⟨p', e1, e2⟩ := hw k' k1 k2
+        rw [k3] at e1; cases e1; exact e2
+      have hne : is ≠ [] := by intro h; rw [h] at i1; simp at i1
+      refine ⟨is ++ [k], ?_, by simp, by simp [i3, hkb], gapsOK_append inp tol slack is a k i2 i4 hak hg⟩
+      rw [List.head?_append, i1]; rfl
+    have := embedsFrom_sound inp tol slack rest pb _ (consumed ++ [pb]) (by simp) hnext h.2
+    simpa using this
+
+/-- **Soundness of the judge's check**: when `Spec.embeds` accepts an answer there are positions
+`is` for which the answer is `Spec.Valid` (so an accepted answer really is a subsequence that keeps
+the endpoints and the tolerance, up to the stated slack). -/
+theorem C13_judge_embeds_sound (inp out : Spec.Path) (tol slack : Rat)
+    (h : embeds inp out tol slack = true) : ∃ is, Spec.Valid inp is out tol slack = true := by
+  match inp, out, h with
+  | [], [], _ => exact ⟨[], rfl⟩
+  | p :: ps, q :: rest, h =>
+    simp only [embeds, Bool.and_eq_true, decide_eq_true_eq] at h
+    obtain ⟨hpq, hemb⟩ := h
+    subst hpq
+    have h0 : PE (p :: ps) tol slack [p] 0 := ⟨[0], rfl, rfl, by simp, rfl⟩
+    obtain ⟨is, i1, i2, i3, i4⟩ := embedsFrom_sound (p :: ps) tol slack rest p [0] [p] rfl
+      (fun a ha => by simp at ha; subst ha; exact h0) hemb
+    refine ⟨is, ?_⟩
+    simp only [Spec.Valid, i1, i2, i4, Bool.and_true]
+    simpa using i3
+
 end GeomV.C13
